@@ -233,6 +233,84 @@ theorem strict_loader_loses_intact_rows :
 
 end damaged
 
+/-! ### A supplemental file with ONE ODD CELL (readable text: an empty / blank / textual date, an amount that is no number, a line
+with fewer or more cells).  `load_supplemental_sources` builds a row FIELD BY FIELD: for every entry `(field, column)` of the column
+map it takes the cell at that column — a line too short for the column simply lacks the field — and converts it with a TOTAL
+conversion (`conv`: a date cell that does not parse stays a string, an amount cell that is no number becomes 0.0).  Hence `decRow` is
+a total `dec` for `loadLenient` (no cell can cost another ROW: `readable_rows_survive`), and within the row a cell only reaches the
+fields of its own column (`odd_cell_field_local`): the amount of an order whose DATE cell is empty is still its amount, and a query
+on amounts is still answered by that row.  A loader whose cell conversion can raise out of the row loop loses the whole table to
+one cell (`raising_cell_loader_loses_the_table`): that is the regression class the odd-cell stream of the check looks for on the
+real code. -/
+
+section oddcell
+variable {V : Type}
+
+/-- one row of a supplemental table: every field of the column map whose column the line has, converted cell by cell -/
+def decRow (conv : String → String → V) (cols : List (String × Nat)) (line : List String) : List (String × V) :=
+  cols.filterMap fun fc => (line[fc.2]?).map fun c => (fc.1, conv fc.1 c)
+
+/-- replacing the cell at column `j` leaves every field that is read from another column as it was -/
+theorem odd_cell_field_local (conv : String → String → V) (cols : List (String × Nat)) (line : List String) (j : Nat) (c : String)
+    (name : String) (h : ∀ fc ∈ cols, fc.1 = name → fc.2 ≠ j) :
+    (decRow conv cols (line.set j c)).lookup name = (decRow conv cols line).lookup name := by
+  induction cols with
+  | nil => rfl
+  | cons fc rest ih =>
+    have ih' := ih (fun x hx => h x (List.mem_cons_of_mem _ hx))
+    unfold decRow at ih' ⊢
+    simp only [List.filterMap_cons]
+    by_cases hj : fc.2 = j
+    · -- the field of the replaced column is another field: it is skipped by the lookup, present or not
+      have hne : ¬ fc.1 = name := fun e => h fc (List.mem_cons_self ..) e hj
+      have hne' : (name == fc.1) = false := by simpa [beq_eq_false_iff_ne] using fun e : name = fc.1 => hne e.symm
+      cases h1 : (line.set j c)[fc.2]? <;> cases h2 : line[fc.2]? <;> simp [List.lookup, hne', ih']
+    · have : (line.set j c)[fc.2]? = line[fc.2]? := by
+        rw [List.getElem?_set_ne (Ne.symm hj)]
+      rw [this]
+      cases h2 : line[fc.2]? with
+      | none => simpa using ih'
+      | some x =>
+        simp only [Option.map_some, List.lookup]
+        cases name == fc.1 <;> simp [ih']
+
+/-- the column map of the orders file of the check: `{date},{item},{amount}` -/
+def orderCols : List (String × Nat) := [("item", 1), ("date", 0), ("amount", 2)]
+
+/-- **an odd DATE cell does not touch the amount**: whatever stands in column 0, the row's `amount` is the conversion of column 2 -/
+theorem amount_survives_odd_date (conv : String → String → V) (line : List String) (c : String) :
+    (decRow conv orderCols (line.set 0 c)).lookup "amount" = (decRow conv orderCols line).lookup "amount" := by
+  apply odd_cell_field_local
+  intro fc hfc hname
+  simp only [orderCols, List.mem_cons, List.mem_nil_iff, or_false] at hfc
+  rcases hfc with rfl | rfl | rfl <;> simp_all
+
+/-- `float()` as an oracle table (external functions are parameters): the cells that are numbers -/
+def numDemo : List (String × Nat) := [("1599", 1599), ("31000", 31000), ("250", 250)]
+
+/-- cell conversion as the loader does it (dates and amounts as text / cents here): a date that does not parse stays a string
+(`none`), an amount that is no number is 0 -/
+def convDemo (field cell : String) : Option Nat :=
+  if field == "amount" then some ((numDemo.lookup cell).getD 0) else if field == "date" then (if cell == "" then none else some 1) else some 0
+
+/-- a loader whose date conversion RAISES out of the row loop on an empty cell ("skip sources that can't be loaded") -/
+def loadRaising (lines : List (List String)) : Except Unit (List (List (String × Option Nat))) :=
+  if lines.all (fun l => l[0]? != some "") then .ok (loadLenient (decRow convDemo orderCols) (fun l => !l.isEmpty) lines) else .error ()
+
+def oddDemo : List (List String) := [["2025-01-05", "Book", "1599"], ["", "Garden hose (pending)", "31000"], ["2025-02-01", "Ink", "250"]]
+
+/-- non-vacuity: with the pending order (no date) in the file, the lenient cell-by-cell loader still answers the query for 1599 —
+and for 31000, the amount of the odd row itself; the raising loader has no table -/
+example : (loadLenient (decRow convDemo orderCols) (fun l => !l.isEmpty) oddDemo).any (fun r => r.lookup "amount" == some (some 1599)) = true := by
+  decide +kernel
+example : (loadLenient (decRow convDemo orderCols) (fun l => !l.isEmpty) oddDemo).any (fun r => r.lookup "amount" == some (some 31000)) = true := by
+  decide +kernel
+/-- a line with fewer cells lacks the fields it has no cell for, and is a row all the same -/
+example : decRow convDemo orderCols ["Subtotal"] = [("date", some 1)] := by decide +kernel
+theorem raising_cell_loader_loses_the_table : (loadRaising oddDemo).toOption = none := by decide +kernel
+
+end oddcell
+
 /-! ### The modelled command IS that composition — for every classifier (`.rules` engine, legacy CSV tuples, no rules)
 
 `Pipeline.upLoop classify sources` is the loop of `cmd_run` the driver executes (op `pipeline`, compared with
